@@ -1,6 +1,6 @@
-(* C14 — Optic transformation: well-typed for every diagram (optic image and adapted form, under the documented contract of the component functors), every generator's reverse derivative for ALL inputs, chain rule. PARTIAL: the derivative statement for every circuit and preservation of composition/tensor (C14Thm.C14_full) are not theorems — decided on generated circuits by the correspondence check and an independent reverse-mode oracle.
+(* C14 — Optic transformation: well-typed for every diagram; structural characterisation of the optic image of an operation batch (disjoint union of the forward and reverse images glued along the residuals; monoidal on batches); every generator's reverse derivative for ALL inputs; chain rule. PARTIAL: the derivative statement for every circuit (C14Thm.C14_full clause 1-2) is not a theorem — decided on generated circuits by the correspondence check and an independent reverse-mode oracle.
    Property theorems only: each statement is spelled out and closed by [exact] of a lemma proved in Proofs/. *)
-From OHG Require Import Proofs.C14Thm Proofs.C14bThm Proofs.HarnessThm.
+From OHG Require Import Proofs.C14Thm Proofs.C14bThm Proofs.C14cPlain Proofs.C14cBatch Proofs.C14cThm Proofs.HarnessThm.
 
 Theorem C14_type : forall B : Prims.Backend,
        Backend.BackendOK B ->
@@ -82,6 +82,101 @@ Proof. exact (@C14bThm.C14_map_operations_defined_typed). Qed.
 
 Theorem C14_contract_satisfiable : forall (O1 A O2 : Type) (F R : O1 -> list O2) (M : A -> list O2), optic_contract (free_optic F R M).
 Proof. exact (@C14bThm.free_optic_has_contract). Qed.
+
+Theorem C14_batch_structure : forall B : Prims.Backend,
+       Backend.BackendOK B ->
+       forall (O1 A1 O2 A2 : Type) (eqO2 : O2 -> O2 -> bool),
+       (forall x y : O2, eqO2 x y = true <-> x = y) ->
+       forall (P : Functor.optic O1 A1 O2 A2) (Fobj Robj : O1 -> list O2),
+       optic_contract_for P Fobj Robj ->
+       forall (ops : IC.operations O1 A1) (c fwd rev : Hyper.ohg O2 A2) (m : IC.ic (list O2)),
+       wf_ops ops ->
+       Functor.optic_map_operations B eqO2 P ops = Res.Ok c ->
+       Functor.sf_map_operations (Functor.op_fwd P) ops = Res.Ok fwd ->
+       Functor.sf_map_operations (Functor.op_rev P) ops = Res.Ok rev ->
+       Functor.op_residual P ops = Res.Ok m ->
+       IsBatch (Plain.abs fwd) (Plain.abs rev) (batch_data Fobj Robj ops m) (Plain.abs c) /\
+       Plain.Iso (Plain.abs c) (expected_batch (Plain.abs fwd) (Plain.abs rev) (batch_data Fobj Robj ops m)).
+Proof. exact (@C14cThm.C14_batch_structure). Qed.
+
+Theorem C14_batch_unique : forall B : Prims.Backend,
+       Backend.BackendOK B ->
+       forall (O1 A1 O2 A2 : Type) (eqO2 : O2 -> O2 -> bool),
+       (forall x y : O2, eqO2 x y = true <-> x = y) ->
+       forall (P : Functor.optic O1 A1 O2 A2) (Fobj Robj : O1 -> list O2),
+       optic_contract_for P Fobj Robj ->
+       forall (ops : IC.operations O1 A1) (c fwd rev : Hyper.ohg O2 A2) (m : IC.ic (list O2))
+         (h : Plain.pohg O2 A2),
+       wf_ops ops ->
+       Functor.optic_map_operations B eqO2 P ops = Res.Ok c ->
+       Functor.sf_map_operations (Functor.op_fwd P) ops = Res.Ok fwd ->
+       Functor.sf_map_operations (Functor.op_rev P) ops = Res.Ok rev ->
+       Functor.op_residual P ops = Res.Ok m ->
+       IsBatch (Plain.abs fwd) (Plain.abs rev) (batch_data Fobj Robj ops m) h -> Plain.Iso (Plain.abs c) h.
+Proof. exact (@C14cThm.C14_batch_unique). Qed.
+
+Theorem C14_generator_structure : forall B : Prims.Backend,
+       Backend.BackendOK B ->
+       forall (O1 A1 O2 A2 : Type) (eqO2 : O2 -> O2 -> bool),
+       (forall x y : O2, eqO2 x y = true <-> x = y) ->
+       forall (P : Functor.optic O1 A1 O2 A2) (Fobj Robj : O1 -> list O2),
+       optic_contract_for P Fobj Robj ->
+       forall (ops : IC.operations O1 A1) (c fwd rev : Hyper.ohg O2 A2) (m : IC.ic (list O2)),
+       wf_ops ops ->
+       length (IC.ops_x ops) = 1 ->
+       Functor.optic_map_operations B eqO2 P ops = Res.Ok c ->
+       Functor.sf_map_operations (Functor.op_fwd P) ops = Res.Ok fwd ->
+       Functor.sf_map_operations (Functor.op_rev P) ops = Res.Ok rev ->
+       Functor.op_residual P ops = Res.Ok m ->
+       let nf := length (Plain.p_nodes (Plain.abs fwd)) in
+       let a := IC.ic_values (IC.ops_a ops) in
+       let b := IC.ic_values (IC.ops_b ops) in
+       let nFb := length (List.flat_map Fobj b) in
+       let nM := length (IC.ic_values m) in
+       Glued
+         (batch_union (Plain.abs fwd) (Plain.abs rev)
+            (List.concat
+               (zip_app
+                  (Plain.segs (List.map (fun o : O1 => length (Fobj o)) a) (Plain.p_ins (Plain.abs fwd)))
+                  (Plain.segs (List.map (fun o : O1 => length (Robj o)) a)
+                     (Plain.shiftl nf (Plain.p_outs (Plain.abs rev))))))
+            (List.concat
+               (zip_app
+                  (Plain.segs (List.map (fun o : O1 => length (Fobj o)) b)
+                     (List.firstn nFb (Plain.p_outs (Plain.abs fwd))))
+                  (Plain.segs (List.map (fun o : O1 => length (Robj o)) b)
+                     (Plain.shiftl nf (List.skipn nM (Plain.p_ins (Plain.abs rev))))))))
+         (List.combine (List.skipn nFb (Plain.p_outs (Plain.abs fwd)))
+            (Plain.shiftl nf (List.firstn nM (Plain.p_ins (Plain.abs rev))))) (Plain.abs c).
+Proof. exact (@C14cThm.C14_generator_structure). Qed.
+
+Theorem C14_batch_monoidal : forall B : Prims.Backend,
+       Backend.BackendOK B ->
+       forall (O1 A1 O2 A2 : Type) (eqO2 : O2 -> O2 -> bool),
+       (forall x y : O2, eqO2 x y = true <-> x = y) ->
+       forall (P : Functor.optic O1 A1 O2 A2) (Fobj Robj : O1 -> list O2),
+       optic_contract_for P Fobj Robj ->
+       forall (p q : IC.operations O1 A1) (c1 fwd1 rev1 c2 fwd2 rev2 c fwd rev : Hyper.ohg O2 A2)
+         (m1 m2 m : IC.ic (list O2)),
+       wf_ops p ->
+       wf_ops q ->
+       Functor.optic_map_operations B eqO2 P p = Res.Ok c1 ->
+       Functor.sf_map_operations (Functor.op_fwd P) p = Res.Ok fwd1 ->
+       Functor.sf_map_operations (Functor.op_rev P) p = Res.Ok rev1 ->
+       Functor.op_residual P p = Res.Ok m1 ->
+       Functor.optic_map_operations B eqO2 P q = Res.Ok c2 ->
+       Functor.sf_map_operations (Functor.op_fwd P) q = Res.Ok fwd2 ->
+       Functor.sf_map_operations (Functor.op_rev P) q = Res.Ok rev2 ->
+       Functor.op_residual P q = Res.Ok m2 ->
+       Functor.optic_map_operations B eqO2 P (ops_app p q) = Res.Ok c ->
+       Functor.sf_map_operations (Functor.op_fwd P) (ops_app p q) = Res.Ok fwd ->
+       Functor.sf_map_operations (Functor.op_rev P) (ops_app p q) = Res.Ok rev ->
+       Functor.op_residual P (ops_app p q) = Res.Ok m ->
+       FinFun.table (IC.ic_sources m) = FinFun.table (IC.ic_sources m1) ++ FinFun.table (IC.ic_sources m2) ->
+       Plain.Iso (Plain.abs fwd) (Plain.ptensor (Plain.abs fwd1) (Plain.abs fwd2)) ->
+       Plain.Iso (Plain.abs rev) (Plain.ptensor (Plain.abs rev1) (Plain.abs rev2)) ->
+       Plain.Iso (Plain.abs c) (Plain.ptensor (Plain.abs c1) (Plain.abs c2)).
+Proof. exact (@C14cThm.C14_batch_monoidal). Qed.
 
 Theorem C14_map_object : forall (O1 A1 O2 A2 : Type) (P : Functor.optic O1 A1 O2 A2) (a : list O1) 
          (fa ra : IC.ic (list O2)) (n : nat),
@@ -321,6 +416,10 @@ Print Assumptions C14_adapt_type.
 Print Assumptions C14_adapted_type.
 Print Assumptions C14_map_operations_defined_typed.
 Print Assumptions C14_contract_satisfiable.
+Print Assumptions C14_batch_structure.
+Print Assumptions C14_batch_unique.
+Print Assumptions C14_generator_structure.
+Print Assumptions C14_batch_monoidal.
 Print Assumptions C14_map_object.
 Print Assumptions C14_interleave.
 Print Assumptions C14_interleave_panic_iff.
